@@ -351,7 +351,7 @@ func c07Sem(r *h.Result, rng *h.Rng, n int) error {
 		}
 		if implRes != "ok" {
 			r.Violate("C07/sql-meaning/"+classifyQuery(cases[i]["query"].(string)),
-				fmt.Sprintf("the SQL built for %s returns rows different from the query's meaning: %s", cases[i]["query"], trunc(implRes, 300)),
+				fmt.Sprintf("the SQL built for %s returns rows different from the query's meaning: %s", cases[i]["query"], truncS(implRes, 300)),
 				map[string]any{"stream": "sem", "case": cases[i], "difference": implRes, "op": ops[i]})
 		}
 		if i%41 == 0 {
@@ -361,7 +361,7 @@ func c07Sem(r *h.Result, rng *h.Rng, n int) error {
 	return nil
 }
 
-func trunc(s string, n int) string {
+func truncS(s string, n int) string {
 	if len(s) > n {
 		return s[:n] + "…"
 	}
